@@ -382,7 +382,10 @@ class Producer(object):
         # payload (topic/partition) level.
         payloads = []
         for (topic, partition), reqs in reqsByTopicPart.items():
-            if self.client._api_versions != 0:
+            if self.client._api_versions:
+                # The broker advertised its versions, so Produce v2 will be
+                # used. Until then (discovery failed or not done yet) stay with
+                # message format 0, which every Produce version accepts.
                 msgSet = create_message_set(reqs, self.codec, magic=1)
             else:
                 msgSet = create_message_set(reqs, self.codec)
